@@ -38,7 +38,8 @@ func (i inst) consts() string {
 // instance parameters as constants. The native build of every instance must print the
 // model's Expect (checked in every tier): that validates the model and this renderer.
 var sources = map[string]string{
-	"pipeline": `
+	// form N = 0: the stages are calls of a declared function
+	"pipeline0": `
 func stage(in, out chan int, id int) {
 	for v := range in {
 		out <- v*2 + id
@@ -65,6 +66,282 @@ func main() {
 	for v := range prev {
 		fmt.Println(v)
 	}
+}
+`,
+	// form N = 1: the stage is a function literal called in place by the go statement; the spawner reassigns the argument variables (`in = out`)
+	"pipeline1": `
+func gen(out chan int, m int) {
+	for j := 1; j <= m; j++ {
+		out <- j
+	}
+	close(out)
+}
+
+func main() {
+	first := make(chan int, B)
+	in := first
+	var out chan int
+	for s := 1; s <= K; s++ {
+		out = make(chan int, B)
+		go func(cin, cout chan int, id int) {
+			for v := range cin {
+				cout <- v*2 + id
+			}
+			close(cout)
+		}(in, out, s)
+		in = out
+	}
+	go gen(first, M)
+	for v := range in {
+		fmt.Println(v)
+	}
+}
+`,
+	// form N = 2: the stage is a closure held in a variable; the spawner reassigns the argument variables (`in = out`)
+	"pipeline2": `
+func gen(out chan int, m int) {
+	for j := 1; j <= m; j++ {
+		out <- j
+	}
+	close(out)
+}
+
+func main() {
+	first := make(chan int, B)
+	in := first
+	var out chan int
+	stage := func(cin, cout chan int, id int) {
+		for v := range cin {
+			cout <- v*2 + id
+	}
+		close(cout)
+	}
+	for s := 1; s <= K; s++ {
+		out = make(chan int, B)
+		go stage(in, out, s)
+		in = out
+	}
+	go gen(first, M)
+	for v := range in {
+		fmt.Println(v)
+	}
+}
+`,
+	// form N = 3: the stage is a method value; the spawner reassigns the argument variables (`in = out`)
+	"pipeline3": `
+type st struct {
+	id int
+}
+
+func (t *st) run(cin, cout chan int) {
+	for v := range cin {
+		cout <- v*2 + t.id
+	}
+	close(cout)
+}
+
+func gen(out chan int, m int) {
+	for j := 1; j <= m; j++ {
+		out <- j
+	}
+	close(out)
+}
+
+func main() {
+	first := make(chan int, B)
+	in := first
+	var out chan int
+	for s := 1; s <= K; s++ {
+		out = make(chan int, B)
+		t := &st{id: s}
+		run := t.run
+		go run(in, out)
+		in = out
+	}
+	go gen(first, M)
+	for v := range in {
+		fmt.Println(v)
+	}
+}
+`,
+	// rebind, form K = 0: go on a declared function
+	"rebind0": `
+var wg sync.WaitGroup
+
+func f1(x int) int { return x*2 + 1 }
+
+func f2(x int) int { return x + 50 }
+
+func rworker(id int, p *int, mp map[int]int, sl []int, fn func(int) int, x int) {
+	a := *p
+	*p = a + id
+	a = *p
+	bb := mp[0]
+	cc := sl[0]
+	fmt.Println(id, a, bb, cc, fn(x))
+	wg.Done()
+}
+
+func main() {
+	var p *int
+	var mp map[int]int
+	var sl []int
+	var fn func(int) int
+	var x int
+	wg.Add(N)
+	for i := 1; i <= N; i++ {
+		p = new(int)
+		*p = i * 100
+		mp = map[int]int{0: i*100 + 1}
+		sl = []int{i*100 + 2}
+		fn = f1
+		x = i*10 + M
+		go rworker(i, p, mp, sl, fn, x)
+		// the spawner moves on: every argument variable now denotes something else
+		p = new(int)
+		*p = 7
+		mp = map[int]int{0: 7}
+		sl = []int{7}
+		fn = f2
+		x = 0
+	}
+	wg.Wait()
+}
+`,
+	// rebind, form K = 1: go on a function literal called in place
+	"rebind1": `
+var wg sync.WaitGroup
+
+func f1(x int) int { return x*2 + 1 }
+
+func f2(x int) int { return x + 50 }
+
+func main() {
+	var p *int
+	var mp map[int]int
+	var sl []int
+	var fn func(int) int
+	var x int
+	wg.Add(N)
+	for i := 1; i <= N; i++ {
+		p = new(int)
+		*p = i * 100
+		mp = map[int]int{0: i*100 + 1}
+		sl = []int{i*100 + 2}
+		fn = f1
+		x = i*10 + M
+		go func(id int, p *int, mp map[int]int, sl []int, fn func(int) int, x int) {
+			a := *p
+			*p = a + id
+			a = *p
+			bb := mp[0]
+			cc := sl[0]
+			fmt.Println(id, a, bb, cc, fn(x))
+			wg.Done()
+		}(i, p, mp, sl, fn, x)
+		// the spawner moves on: every argument variable now denotes something else
+		p = new(int)
+		*p = 7
+		mp = map[int]int{0: 7}
+		sl = []int{7}
+		fn = f2
+		x = 0
+	}
+	wg.Wait()
+}
+`,
+	// rebind, form K = 2: go on a closure held in a variable
+	"rebind2": `
+var wg sync.WaitGroup
+
+func f1(x int) int { return x*2 + 1 }
+
+func f2(x int) int { return x + 50 }
+
+func main() {
+	var p *int
+	var mp map[int]int
+	var sl []int
+	var fn func(int) int
+	var x int
+	rworker := func(id int, p *int, mp map[int]int, sl []int, fn func(int) int, x int) {
+		a := *p
+		*p = a + id
+		a = *p
+		bb := mp[0]
+		cc := sl[0]
+		fmt.Println(id, a, bb, cc, fn(x))
+		wg.Done()
+	}
+	wg.Add(N)
+	for i := 1; i <= N; i++ {
+		p = new(int)
+		*p = i * 100
+		mp = map[int]int{0: i*100 + 1}
+		sl = []int{i*100 + 2}
+		fn = f1
+		x = i*10 + M
+		go rworker(i, p, mp, sl, fn, x)
+		// the spawner moves on: every argument variable now denotes something else
+		p = new(int)
+		*p = 7
+		mp = map[int]int{0: 7}
+		sl = []int{7}
+		fn = f2
+		x = 0
+	}
+	wg.Wait()
+}
+`,
+	// rebind, form K = 3: go on a method value
+	"rebind3": `
+var wg sync.WaitGroup
+
+func f1(x int) int { return x*2 + 1 }
+
+func f2(x int) int { return x + 50 }
+
+type rw struct {
+	id int
+}
+
+func (t *rw) run(p *int, mp map[int]int, sl []int, fn func(int) int, x int) {
+	id := t.id
+	a := *p
+	*p = a + id
+	a = *p
+	bb := mp[0]
+	cc := sl[0]
+	fmt.Println(id, a, bb, cc, fn(x))
+	wg.Done()
+}
+
+func main() {
+	var p *int
+	var mp map[int]int
+	var sl []int
+	var fn func(int) int
+	var x int
+	wg.Add(N)
+	for i := 1; i <= N; i++ {
+		p = new(int)
+		*p = i * 100
+		mp = map[int]int{0: i*100 + 1}
+		sl = []int{i*100 + 2}
+		fn = f1
+		x = i*10 + M
+		t := &rw{id: i}
+		run := t.run
+		go run(p, mp, sl, fn, x)
+		// the spawner moves on: every argument variable now denotes something else
+		p = new(int)
+		*p = 7
+		mp = map[int]int{0: 7}
+		sl = []int{7}
+		fn = f2
+		x = 0
+	}
+	wg.Wait()
 }
 `,
 	"pool": `
@@ -405,8 +682,10 @@ func main() {
 
 func (i inst) body() string {
 	switch i.T {
-	case "counter", "privsel":
+	case "counter", "privsel", "rebind":
 		return sources[fmt.Sprintf("%s%d", i.T, i.K)]
+	case "pipeline":
+		return sources[fmt.Sprintf("pipeline%d", i.N)]
 	}
 	return sources[i.T]
 }
